@@ -82,6 +82,18 @@ add("C04", "exploration",
     "Trusts the harness's own composition of AES-256-CTR and Poly1305-AES from the primitive crates, its marker generator and raw parsers.",
     "DESIGN.md section 5 C04")
 
+add("C10", "exploration",
+    "runtime monitor with a storage gate: one command is parked at its k-th backend operation (every k) while the other runs to completion on the same store, then resumes; afterwards a follow-up prune, check(read_data), full reads against source models and an independent raw reachability scan",
+    "Held on the interleavings produced (operation-granular positions of backup||prune, prune||backup, backup||backup; non-instant prune with keep-delete 1 h). Positions are enumerated per scenario in the thorough tier; scenarios are sampled; finer-than-operation overlap is not produced.",
+    "Both commands run in one process on separate repository handles; the gate counts operations of the handle's party. Premise: keep-delete exceeds the backup duration.",
+    "DESIGN.md section 5 C10")
+
+add("C11", "exploration",
+    "runtime differential monitor: parent-based backup vs forced backup of the same source state on clones of the same store (tree ids, full reads, summary counters), synthetic metadata control and real on-disk sources edited in place, partly pruned parents",
+    "Held on the generated (parent state(s), edit script, parent options) cases that satisfy the property's premise. Sampling.",
+    "Trusts the harness's edit generator to satisfy the premise (every content change bumps mtime); on-disk cases rely on the file system's ctime/inode behaviour.",
+    "DESIGN.md section 5 C11")
+
 NOT_YET = "check not built yet (work in progress in this round)"
 
 def main():
